@@ -7,5 +7,5 @@ Extraction Language OCaml.
 Extraction "m_c15.ml"
   exec ref exec_fuel forget final_aborted
   g_status g_written g_size result_hdr
-  enters nextrets is_stop chain_valid
+  enters nextrets is_stop
   spec_written spec_status spec_size.
